@@ -391,6 +391,8 @@ class Canonicalizer:
         new._canon_of = fn
         owner = getattr(fn, "_parent", None)
         set_parents(new, owner)
+        if self._closure_recursion(new):
+            set_parents(new, owner)
         # alpha-normalisation first: locals recognised by their signature get the reference spelling back (sa/refnames.py)
         try:
             from . import refnames
@@ -445,6 +447,63 @@ class Canonicalizer:
             self._active.discard(id(fn))
         self.cache[ckey] = new
         return new
+
+    # ------------------------------------------------------------------ recursion through a local closure -> recursion of the function itself
+    def _closure_recursion(self, new: ast.FunctionDef) -> bool:
+        """def f(a, b, flag): def walk(x, y): ... walk(p, q) ...; return walk(a, b)   ==>   def f(a, b, flag): ... f(a=p, b=q, flag=flag) ...
+        (the closure only exists to avoid passing the invariant arguments down; its parameters are the outer parameters it is first called with)"""
+        body = _docless(new.body)
+        if len(body) != 2 or not isinstance(body[0], ast.FunctionDef) or not isinstance(body[1], ast.Return):
+            return False
+        inner, ret = body
+        call = ret.value
+        if not (isinstance(call, ast.Call) and isinstance(call.func, ast.Name) and call.func.id == inner.name and not call.keywords and not inner.decorator_list):
+            return False
+        ia = inner.args
+        if ia.vararg or ia.kwarg or ia.kwonlyargs or ia.defaults or ia.posonlyargs or len(ia.args) != len(call.args):
+            return False
+        oa = new.args
+        outer_params = [a.arg for a in oa.posonlyargs + oa.args + oa.kwonlyargs]
+        if oa.vararg or oa.kwarg or oa.posonlyargs:
+            return False
+        if not all(isinstance(a, ast.Name) and a.id in outer_params for a in call.args) or len({a.id for a in call.args}) != len(call.args):
+            return False
+        if _is_generator(inner):
+            return False
+        mapping = {p.arg: a.id for p, a in zip(ia.args, call.args)}
+        inner_names = {n.id for n in ast.walk(inner) if isinstance(n, ast.Name)}
+        # the outer names the parameters are renamed to must not be read inside the closure under their own name, and the closure must not rebind what it closes over
+        if any(o in inner_names and o != i for i, o in mapping.items()):
+            return False
+        stored = {n.id for n in ast.walk(inner) if isinstance(n, ast.Name) and isinstance(n.ctx, (ast.Store, ast.Del))}
+        if (stored & (set(outer_params) - set(mapping.values()))) or any(isinstance(n, (ast.Nonlocal, ast.Global)) for n in ast.walk(inner)):
+            return False
+        # every use of the closure's name is a plain positional call
+        for n in ast.walk(inner):
+            if isinstance(n, ast.Name) and n.id == inner.name:
+                par = getattr(n, "_parent", None)
+                if not (isinstance(par, ast.Call) and par.func is n and not par.keywords and len(par.args) == len(ia.args) and not any(isinstance(a, ast.Starred) for a in par.args)):
+                    return False
+        others = [p for p in outer_params if p not in mapping.values()]
+        pnames = [p.arg for p in ia.args]
+
+        class _R(ast.NodeTransformer):
+            def visit_Call(self, node):
+                self.generic_visit(node)
+                if isinstance(node.func, ast.Name) and node.func.id == inner.name:
+                    kws = [ast.keyword(arg=mapping[pn], value=a) for pn, a in zip(pnames, node.args)] + [ast.keyword(arg=o, value=ast.Name(id=o, ctx=ast.Load())) for o in others]
+                    return ast.copy_location(ast.Call(func=ast.Name(id=new.name, ctx=ast.Load()), args=[], keywords=kws), node)
+                return node
+
+            def visit_Name(self, node):
+                if node.id in mapping:
+                    node.id = mapping[node.id]
+                return node
+        nb = [_R().visit(st) for st in _docless(inner.body)]
+        new.body = nb
+        ast.fix_missing_locations(new)
+        self.notes.append(f"turned the recursion of closure {inner.name} into recursion of {new.name}")
+        return True
 
     # ------------------------------------------------------------------ inlining
     def _helper_of(self, mod, root_orig: ast.FunctionDef, scope: ast.AST, call: ast.Call):
